@@ -4,9 +4,12 @@
 
   * infinity is the protocol constant 16 (hard-wired here; the model takes it from Gen/C18Consts);
   * `advertFinite`   : no advertisement lists a destination whose best cost is >= 16;
-  * `shortestPathOk` : at quiescence the advertised cost to every reachable router is its hop
-                       distance (< 16), the next hop is the neighbour on a shortest path with the
-                       smallest key (deterministic tie-break), unreachable routers are not listed.
+  * `shortestPathFailures` : at quiescence the advertised cost to every reachable router is its hop
+                       distance (< 16), the next hop is a neighbour on a shortest path, unreachable
+                       routers are not listed.  "Ties are broken the same way every time" is checked by
+                       the driver as schedule independence: the same topology must always lead to the
+                       same tables (the concrete rule — smallest key — is the model's, see
+                       `Props.refresh_is_lexicographic_top2`, not a demand of the property).
   Core Lean only.
 -/
 namespace Ndn.C18.Spec
@@ -50,17 +53,12 @@ deriving Repr, BEq
 /-- clause "no advertisement ever lists a destination whose best cost is at or above infinity" -/
 def advertFinite (adv : List Obs) : Bool := adv.all fun o => o.cost < infinity
 
-/-- the neighbour of `u` on a shortest path to `d` with the smallest key -/
-def expectedNextHop (t : Topo) (keys : List Nat) (dist : List Nat) (u k : Nat) : Option Nat :=
-  (List.range t.n).foldl (fun best w =>
-      if t.adj u w && dist.getD w unreach + 1 == k then
-        match best with
-        | none => some w
-        | some b => if keys.getD w 0 < keys.getD b 0 then some w else some b
-      else best) none
+/-- `w` is a neighbour of `u` on a shortest path to the destination whose distances are `dist` -/
+def onShortestPath (t : Topo) (dist : List Nat) (u k : Nat) (w : Nat) : Bool :=
+  w < t.n && t.adj u w && dist.getD w unreach + 1 == k
 
 /-- failures of router `u`'s advertisement against the shortest paths of `t` -/
-def shortestPathFailures (t : Topo) (keys : List Nat) (u : Nat) (adv : List Obs) : List String :=
+def shortestPathFailures (t : Topo) (u : Nat) (adv : List Obs) : List String :=
   (List.range t.n).flatMap fun d =>
     let dist := distsTo t d
     let k := dist.getD u unreach
@@ -68,10 +66,12 @@ def shortestPathFailures (t : Topo) (keys : List Nat) (u : Nat) (adv : List Obs)
     if k < infinity then
       match listed with
       | [o] =>
-        let nhWant := if u = d then some u else expectedNextHop t keys dist u k
+        let nhOk := match o.nh with
+          | some w => if u = d then w == u else onShortestPath t dist u k w
+          | none => false
         (if o.cost = k then [] else [s!"r{u}: cost to r{d} is {o.cost}, hop distance is {k}"]) ++
-        (if o.nh == nhWant then [] else
-          [s!"r{u}: next hop to r{d} is {repr o.nh}, shortest-path next hop with the smallest key is {repr nhWant}"])
+        (if nhOk then [] else
+          [s!"r{u}: next hop to r{d} is {repr o.nh}, which is not a neighbour on a shortest path (distance {k})"])
       | [] => [s!"r{u}: r{d} at hop distance {k} is missing from the table"]
       | _ => [s!"r{u}: r{d} is listed more than once"]
     else
